@@ -189,6 +189,7 @@ type hostileResp struct {
 	Header     map[string]string `json:"header"`
 	Body       string            `json:"body"`
 	Op         string            `json:"mutation"`
+	Lenient    bool              `json:"lenient_client,omitempty"` // StrictResponseDeserialization off (the default of a client)
 }
 
 type cannedTransport struct{ c *hostileResp }
@@ -207,10 +208,10 @@ func (t cannedTransport) RoundTrip(req *http.Request) (*http.Response, error) {
 }
 
 func checkHostileResponse(rec *stats.Recorder, c hostileResp) string {
-	rec.Case("hostile_response", "mutation="+c.Op)
+	rec.Case("hostile_response", "mutation="+c.Op, fmt.Sprintf("lenient_client=%v", c.Lenient))
 	rec.NonTrivial("response", hx.J(c), func() any { return c })
 	cl := &restli.Client{Client: &http.Client{Transport: cannedTransport{&c}}, HostnameResolver: &restli.SimpleHostnameResolver{Hostname: getWorld("bare").baseURL("verif.test")},
-		StrictResponseDeserialization: true}
+		StrictResponseDeserialization: !c.Lenient}
 	if p, pv, st := hx.Try(func() { _, _, _ = dyn.CallClient(S, contextBackground(), cl, &c.Call, nil) }); p {
 		return fmt.Sprintf("a malformed response made the client call panic in the caller's goroutine: %v\n%s\n %s.%s\n response: %d %v %s", pv, trimStack(st), c.Call.Resource, c.Call.Method, c.Status, c.Header, hx.Q(c.Body))
 	}
@@ -239,7 +240,7 @@ func TestC04Responses(t *testing.T) {
 			rt.Skip()
 		}
 		cp := sl.wire[0]
-		c := hostileResp{CorpusSeed: corpusSeed, Call: call, Status: cp.Status, Body: cp.RespBody, Header: map[string]string{}}
+		c := hostileResp{CorpusSeed: corpusSeed, Call: call, Status: cp.Status, Body: cp.RespBody, Header: map[string]string{}, Lenient: rapid.Bool().Draw(rt, "lenient")}
 		for k, v := range cp.RespHdr {
 			if len(v) > 0 && k != "Content-Length" {
 				c.Header[k] = v[0]
@@ -249,6 +250,10 @@ func TestC04Responses(t *testing.T) {
 			switch rapid.IntRange(0, 5).Draw(rt, "where") {
 			case 0, 1, 2:
 				c.Body, c.Op = mutateString(rt, c.Body, "body")
+				if rapid.IntRange(0, 9).Draw(rt, "blank") == 0 {
+					// a 2xx without an entity where one is expected: no body at all, or the JSON null
+					c.Body, c.Op = rapid.SampledFrom([]string{"", "null", " ", "{}", "[]"}).Draw(rt, "blankbody"), "blank"
+				}
 				c.Op = "body_" + c.Op
 			case 3:
 				h := rapid.SampledFrom([]string{"X-RestLi-Id", "X-RestLi-Protocol-Version", "X-RestLi-Error-Response", "Location", "Content-Type"}).Draw(rt, "hdr")
